@@ -23,7 +23,7 @@ ASSUMPTIONS = ['pysam VariantFile / tabix are trusted', 'truth is only demanded 
                'positions >= 0 are queried (position -1 is an internal sentinel)']
 MIN_NONTRIVIAL = {'quick': 1500, 'thorough': 100000}
 REQUIRED_MONITORS = ['ret:getAllelesAt', 'ret:has_location', 'mode:eager', 'mode:lazy', 'mode:cache_write', 'mode:cache_read',
-                     'mode:cache_flag_without_lazy', 'history:cache_from_other_config', 'history:cache_from_other_sample_selection', 'config:empty_sample_selection', 'oracle:clean_sites', 'evicted_contig_revisited', 'tagger:runs', 'oracle:DA_compared', 'fault:cache_close_failures']
+                     'mode:cache_flag_without_lazy', 'history:cache_from_other_config', 'history:cache_from_other_sample_selection', 'config:empty_sample_selection', 'config:cache_name_over_255_bytes', 'oracle:clean_sites', 'evicted_contig_revisited', 'tagger:runs', 'oracle:DA_compared', 'fault:cache_close_failures']
 SHARD_TIMEOUT = {'quick': 600, 'thorough': 3600}
 
 
@@ -133,11 +133,15 @@ def run_tagger_case(case):
     return acc
 
 
-def gen_vcf(r, path):
+def gen_vcf(r, path, long_panel=False):
     contigs = [f'chr{j + 1}' for j in range(r.randint(1, 3))]
     if r.random() < 0.4:
         contigs.append(r.choice(['chrUn_KI270302v1', 'chr1_KI270706v1_random', 'ERCC-00002']))
     samples = [f'S{j}' for j in range(r.randint(1, 4))]
+    if long_panel:
+        # a panel of many strains with descriptive names: the name of the cache file (contig + selected samples) grows past the limit of the
+        # file system, the cache cannot be written - the answers must not change
+        samples = [f'strain_{j:02d}_' + ''.join(r.choice('ABCDEFGHJK') for _ in range(r.randint(8, 14))) for j in range(r.randint(18, 32))]
     rows = []
     for c in contigs:
         pos = 0
@@ -217,11 +221,14 @@ def run_case(case):
     r = rng(case['seed'], 'C18', case['i'])
     with Scratch('c18') as d:
         plain = os.path.join(d, 'v.vcf')
-        contigs, samples, rows = gen_vcf(r, plain)
+        contigs, samples, rows = gen_vcf(r, plain, long_panel=(case['i'] % 7 == 3))
         select = None if r.random() < 0.5 else sorted(r.sample(samples, r.randint(1, len(samples))))
         if r.random() < 0.12:
             select = []     # the empty selection: nothing can be returned, in any mode
             acc.count('config:empty_sample_selection')
+        if len(samples) > 10 and select != []:
+            select = None if r.random() < 0.15 else sorted(r.sample(samples, r.randint(len(samples) - 3, len(samples))))
+        acc.count('config:cache_name_over_255_bytes', 1 if (select is not None and len('-'.join(select)) > 250) else 0)
         ignore = None if r.random() < 0.5 else set(r.sample([(a, b) for a in 'ACGT' for b in 'ACGT' if a != b], r.randint(1, 3)))
         phased = r.random() < 0.8
         if not phased:
